@@ -187,3 +187,148 @@ func tsRun(path string, c tsCase) (out tsOut) {
 	}
 	return
 }
+
+// two-stores-visibility: what one store object does to the shared file must be visible to the other at its next call - a message
+// enqueued (or requeued from the DLQ) by the operator's store, a lease taken by a second process that then dies.  C05: a ready
+// message is returned by the next dequeue whoever made it ready; no per-process hint may hide it.
+func init() { register("two-stores-visibility", twoStoresVisibility) }
+
+type tvCase struct {
+	Scenario string `json:"scenario"` // other-enqueues other-leases-and-dies other-requeues-dead other-nacks
+	Polls    int    `json:"polls"`    // empty polls by the survivor before the other store acts
+}
+
+type tvOut struct {
+	Before  []int    `json:"before"` // items returned by the survivor's polls before
+	Got     []string `json:"got"`    // ids returned by the survivor's dequeue afterwards
+	Attempt []int    `json:"attempts"`
+	Err     string   `json:"err,omitempty"`
+}
+
+func twoStoresVisibility(in []byte) (any, error) {
+	var req struct {
+		Dir   string   `json:"dir"`
+		Cases []tvCase `json:"cases"`
+	}
+	if err := json.Unmarshal(in, &req); err != nil {
+		return nil, err
+	}
+	if err := os.MkdirAll(req.Dir, 0o755); err != nil {
+		return nil, err
+	}
+	outs := make([]tvOut, len(req.Cases))
+	for i, c := range req.Cases {
+		outs[i] = tvRun(filepath.Join(req.Dir, fmt.Sprintf("tv-%d-%d.db", os.Getpid(), i)), c)
+	}
+	return map[string]any{"cases": outs}, nil
+}
+
+func tvRun(path string, c tvCase) (out tvOut) {
+	base := time.Date(2026, 2, 4, 12, 0, 0, 0, time.UTC)
+	var off atomic.Int64
+	nowAt := func() time.Time { return base.Add(time.Duration(off.Load())) }
+	A, err := queue.NewSQLiteStore(path, queue.WithSQLiteNowFunc(nowAt), queue.WithSQLitePollInterval(5*time.Millisecond))
+	if err != nil {
+		out.Err = "open survivor: " + err.Error()
+		return
+	}
+	defer A.Close()
+	B, err := queue.NewSQLiteStore(path, queue.WithSQLiteNowFunc(nowAt))
+	if err != nil {
+		out.Err = "open other: " + err.Error()
+		return
+	}
+	closedB := false
+	defer func() {
+		if !closedB {
+			B.Close()
+		}
+	}()
+	if c.Scenario == "other-requeues-dead" || c.Scenario == "other-nacks" {
+		// a message the survivor itself has dead-lettered / leased before it goes idle
+		if err := A.Enqueue(queue.Envelope{ID: "evt_1", Route: "/r", Target: "t", Payload: []byte("x")}); err != nil {
+			out.Err = err.Error()
+			return
+		}
+		r, err := A.Dequeue(queue.DequeueRequest{Route: "/r", Target: "t", Batch: 1, LeaseTTL: time.Hour})
+		if err != nil || len(r.Items) != 1 {
+			out.Err = "set-up dequeue failed"
+			return
+		}
+		if c.Scenario == "other-requeues-dead" {
+			if err := A.MarkDead(r.Items[0].LeaseID, "boom"); err != nil {
+				out.Err = err.Error()
+				return
+			}
+		} else {
+			// the other process holds the lease id (a worker talking to a second gateway on the same file)
+			defer func() {}()
+			off.Add(int64(time.Second))
+			for k := 0; k < c.Polls; k++ {
+				off.Add(int64(20 * time.Millisecond))
+				rr, _ := A.Dequeue(queue.DequeueRequest{Route: "/r", Target: "t", Batch: 10, LeaseTTL: time.Minute})
+				out.Before = append(out.Before, len(rr.Items))
+			}
+			if err := B.Nack(r.Items[0].LeaseID, 0); err != nil {
+				out.Err = "other nack: " + err.Error()
+				return
+			}
+			off.Add(int64(20 * time.Millisecond))
+			rr, err := A.Dequeue(queue.DequeueRequest{Route: "/r", Target: "t", Batch: 10, LeaseTTL: time.Minute})
+			if err != nil {
+				out.Err = err.Error()
+				return
+			}
+			for _, it := range rr.Items {
+				out.Got = append(out.Got, it.ID)
+				out.Attempt = append(out.Attempt, it.Attempt)
+			}
+			return
+		}
+	}
+	for k := 0; k < c.Polls; k++ {
+		off.Add(int64(20 * time.Millisecond))
+		rr, err := A.Dequeue(queue.DequeueRequest{Route: "/r", Target: "t", Batch: 10, LeaseTTL: time.Minute})
+		if err != nil {
+			out.Err = err.Error()
+			return
+		}
+		out.Before = append(out.Before, len(rr.Items))
+	}
+	switch c.Scenario {
+	case "other-enqueues":
+		if err := B.Enqueue(queue.Envelope{ID: "evt_1", Route: "/r", Target: "t", Payload: []byte("x")}); err != nil {
+			out.Err = "other enqueue: " + err.Error()
+			return
+		}
+	case "other-leases-and-dies":
+		if err := B.Enqueue(queue.Envelope{ID: "evt_1", Route: "/r", Target: "t", Payload: []byte("x")}); err != nil {
+			out.Err = "other enqueue: " + err.Error()
+			return
+		}
+		r, err := B.Dequeue(queue.DequeueRequest{Route: "/r", Target: "t", Batch: 1, LeaseTTL: 30 * time.Second})
+		if err != nil || len(r.Items) != 1 {
+			out.Err = "other dequeue failed"
+			return
+		}
+		B.Close()
+		closedB = true
+		off.Add(int64(31 * time.Second))
+	case "other-requeues-dead":
+		if _, err := B.RequeueDead(queue.DeadRequeueRequest{IDs: []string{"evt_1"}}); err != nil {
+			out.Err = "other requeue: " + err.Error()
+			return
+		}
+	}
+	off.Add(int64(20 * time.Millisecond))
+	rr, err := A.Dequeue(queue.DequeueRequest{Route: "/r", Target: "t", Batch: 10, LeaseTTL: time.Minute})
+	if err != nil {
+		out.Err = err.Error()
+		return
+	}
+	for _, it := range rr.Items {
+		out.Got = append(out.Got, it.ID)
+		out.Attempt = append(out.Attempt, it.Attempt)
+	}
+	return
+}
